@@ -212,6 +212,9 @@ func (e *Engine) binop(op token.Token, tx, ty types.Type, x, y Value) Value {
 			return e.ts.Cmp(OpUle, yv, xv)
 		}
 	case float64:
+		if ry, ok := y.(RatFloat); ok {
+			return e.ratCmp(op, ry, x, true)
+		}
 		yv := y.(float64)
 		if b, ok := tx.Underlying().(*types.Basic); ok && b.Kind() == types.Float32 {
 			switch op {
@@ -247,6 +250,8 @@ func (e *Engine) binop(op token.Token, tx, ty types.Type, x, y Value) Value {
 		case token.GEQ:
 			return e.ts.Bool(xv >= yv)
 		}
+	case RatFloat:
+		return e.ratCmp(op, xv, y, false)
 	case Str:
 		yv := y.(Str)
 		switch op {
@@ -282,6 +287,48 @@ func (e *Engine) binop(op token.Token, tx, ty types.Type, x, y Value) Value {
 		return e.ts.BNot(e.equalVals(tx, x, y))
 	}
 	panic(fmt.Sprintf("binop %v on %T,%T", op, x, y))
+}
+
+// ratCmp orders a RatFloat against a concrete float (swapped: the RatFloat is the right operand).
+func (e *Engine) ratCmp(op token.Token, r RatFloat, other Value, swapped bool) Value {
+	c, ok := other.(float64)
+	if !ok {
+		e.unsupported("arithmetic between symbolic floats")
+	}
+	scaled := c * float64(r.Den)
+	if scaled != math.Trunc(scaled) || math.Abs(scaled) > 1<<62 {
+		e.unsupported("comparison of a symbolic float with a non-integral bound")
+	}
+	k := e.ts.Const(64, uint64(int64(scaled)))
+	if swapped {
+		// c OP r  ==  r OP' c
+		switch op {
+		case token.LSS:
+			op = token.GTR
+		case token.LEQ:
+			op = token.GEQ
+		case token.GTR:
+			op = token.LSS
+		case token.GEQ:
+			op = token.LEQ
+		}
+	}
+	switch op {
+	case token.EQL:
+		return e.ts.Eq(r.I, k)
+	case token.NEQ:
+		return e.ts.BNot(e.ts.Eq(r.I, k))
+	case token.LSS:
+		return e.ts.Cmp(OpSlt, r.I, k)
+	case token.LEQ:
+		return e.ts.Cmp(OpSle, r.I, k)
+	case token.GTR:
+		return e.ts.Cmp(OpSlt, k, r.I)
+	case token.GEQ:
+		return e.ts.Cmp(OpSle, k, r.I)
+	}
+	e.unsupported("arithmetic on a symbolic float (%v)", op)
+	return nil
 }
 
 func (e *Engine) strEq(a, b Str) *Term {
@@ -389,6 +436,11 @@ func (e *Engine) conv(tdst, tsrc types.Type, x Value) Value {
 					return e.ts.Const(w, uint64(xv))
 				}
 				return e.ts.Const(w, uint64(int64(xv)))
+			case RatFloat:
+				if xv.Den != 1 {
+					e.unsupported("non-integral symbolic float to integer conversion")
+				}
+				return e.ts.Resize(xv.I, w, true)
 			case Ptr: // unsafe.Pointer -> uintptr
 				e.unsupported("pointer to integer conversion")
 			}
@@ -399,10 +451,34 @@ func (e *Engine) conv(tdst, tsrc types.Type, x Value) Value {
 					return float64(float32(xv))
 				}
 				return xv
+			case RatFloat:
+				if ud.Kind() == types.Float32 {
+					e.unsupported("float32 of symbolic value")
+				}
+				return xv
 			case *Term:
 				if xv.Op != OpConst {
-					// concretise: float results of symbolic ints are outside the engine
-					e.unsupported("symbolic integer to float conversion")
+					// exact while |i| <= 2^53: checked on the path
+					var i64 *Term
+					if isSigned(tsrc) {
+						i64 = e.ts.SExt(xv, 64)
+					} else {
+						if xv.W == 64 {
+							if e.decideBool(e.ts.Cmp(OpSlt, xv, e.ts.Const(64, 0))) {
+								e.unsupported("uint64 above 2^63 converted to float")
+							}
+						}
+						i64 = e.ts.ZExt(xv, 64)
+					}
+					lim := e.ts.Const(64, 1<<53)
+					exact := e.ts.BAnd(e.ts.Cmp(OpSle, e.ts.Neg(lim), i64), e.ts.Cmp(OpSle, i64, lim))
+					if !e.decideBool(exact) {
+						e.unsupported("integer beyond 2^53 converted to float (inexact)")
+					}
+					if ud.Kind() == types.Float32 {
+						e.unsupported("float32 of symbolic value")
+					}
+					return RatFloat{I: i64, Den: 1}
 				}
 				var f float64
 				if isSigned(tsrc) {
